@@ -87,7 +87,7 @@ func (fr *Frame) nativeCall(b *ssa.BasicBlock, st *State, name string, callee *s
 	case "math/big.NewInt":
 		fr.trust("math/big.NewInt: fresh object holding the argument")
 		r := fr.alloc(st, "big")
-		if activeLogs[fc] == nil {
+		if len(activeLogs[fc]) == 0 {
 			if fc.localRefs == nil {
 				fc.localRefs = map[string]bool{}
 			}
